@@ -721,9 +721,8 @@ class Cell(Numbered_MCNP_Object):
                             printed_importance = True
                         # add trailing space to comment if necessary
                         ret = cleanup_last_line(ret)
-                        ret += "\n".join(
-                            getattr(self, attr).format_for_mcnp_input(mcnp_version)
-                        )
+                        # not wrapped yet: a line break after the parameter is kept
+                        ret += getattr(self, attr)._format_as_text(mcnp_version)
                     else:
                         # add trailing space to comment if necessary
                         ret = cleanup_last_line(ret)
